@@ -761,6 +761,11 @@ pub fn start_rtu_client(baud: u32, retry: (u64, u64), decode: DecodeLevel, qcap:
 }
 
 pub fn t35_ns(baud: u32) -> u64 {
+    // a port that reports 0 baud (opened with B0, or a driver without a notion of speed) has no character
+    // time: the fixed delay applies
+    if baud == 0 {
+        return 1_750_000;
+    }
     if baud <= 19200 {
         (11_000_000_000u64 / baud as u64) * 35 / 10
     } else {
@@ -796,7 +801,7 @@ fn run_lockstep_inner(cfg: &ScenCfg, out: &mut RunOut, rtu: bool) {
     };
     // serial channels have no consecutive-timeout limit
     let max_timeouts = if rtu { None } else { max_timeouts };
-    let baud = [9600u32, 19200, 115200, 1200][choose(4) as usize];
+    let baud = [9600u32, 19200, 115200, 1200, 9600, 19200, 115200, 1200, 0, 300][choose(10) as usize];
     let qcap = [1usize, 2, 4, 16][choose(4) as usize];
     let opts = ClientOptions::default()
         .decode_level(decode)
